@@ -42,6 +42,15 @@ theorem c06_no_extraction_below_depth_two (cfg : Cfg) (ex : String → Extract) 
     postAct S cfg ex i dnr = .complete ∨ ∃ c, postAct S cfg ex i dnr = .redirect c :=
   no_extraction_beyond_depth S facts_ok cfg ex i dnr hdc hd
 
+/-- … read the other way round: whenever extraction produces asset children or outlinks (domains-crawl off), the node sits
+at most two levels below the page, so a child is at most three levels below it. -/
+theorem c06_children_only_down_to_level_three (cfg : Cfg) (ex : String → Extract) (i : Info) (dnr : Int) (kids : List Info)
+    (outs : List Outlink) (hdc : cfg.domainsCrawl = false) (h : postAct S cfg ex i dnr = .extract kids outs) : dnr + 1 ≤ 3 := by
+  have hh : ¬ (2 < dnr) := by
+    intro hd
+    rcases no_extraction_beyond_depth S facts_ok cfg ex i dnr hdc hd with h' | ⟨c, h'⟩ <;> rw [h] at h' <;> cases h'
+  omega
+
 /-- **Hops.** Assets inherit the page's hops. An outlink matching `--domains-crawl` is queued with hops 0;
 any other outlink is queued only from a page with fewer than `--max-hops` hops, with the page's hops + 1.
 Every outlink names the page as its via. -/
